@@ -31,6 +31,7 @@ RULE = (
     "GALLIA_VERIF hook. Oracle: effective value = value of the highest-priority source present; an invalid value -> exit status 2 and a "
     "message naming the source; CONFIG_TYPE(**json.loads(cfg.model_dump_json())) dumps to identical JSON (what META.json / the database "
     "store and rerun feeds back); the declared metadata of every Field() survives model construction; template() lists every declared "
+    "Cells whose option name is also a command name (and a rotating sample of the others) additionally go through the parser of the whole command tree; free-text values contain quotes and blanks. "
     "file-configurable option under its section. Non-trivial: >= 2 sources present. Distinct by (command, option, source set, values)."
 )
 ASSUMPTIONS = [
